@@ -157,10 +157,15 @@ func which(resp *pb.RegistrationResponse) (string, string) {
 type c13SlowSelector struct {
 	inner ipSelector
 	tid   map[int]bool
+	every bool // load scenarios: every IPv4 selection takes three virtual seconds
 }
 
 func (s *c13SlowSelector) Select(seed []byte, gen uint, libver uint, v6 bool) (*phantoms.PhantomIP, error) {
-	if t := vsched.ThreadID(); s.tid[t] {
+	if s.every {
+		if !v6 {
+			vsched.Sleep(3 * time.Second)
+		}
+	} else if t := vsched.ThreadID(); s.tid[t] {
 		delete(s.tid, t)
 		vsched.Sleep(3 * time.Second)
 	}
@@ -190,6 +195,10 @@ func VerifC13Main() {
 	}
 	if name == "race" {
 		c13Race(a, fa, fb, met)
+		return
+	}
+	if strings.HasPrefix(name, "load:") {
+		c13Load(a, name, fa, fb, met)
 		return
 	}
 	// "e:<kinds>/<m>": the registrar starts on set C (IPv4 only), so requests that need an IPv6 phantom take the
@@ -357,6 +366,102 @@ func VerifC13Main() {
 	}
 	vh.SelfCheck(name, mk)
 	res := vsched.Explore(vsched.Config{Name: name, PreemptBound: -1, EnvBound: -1, Deadline: a.Deadline(), Prune: true}, mk)
+	vh.Emit(vh.FromSched(res))
+}
+
+// c13Load: "the reloads complete as well" under sustained load, in bounded form. Two (three) clients register back to
+// back, each request holding the selector for three virtual seconds, staggered so that some request holds it at every
+// instant of the run; a reload is called one second in. Whatever the lock's policy, a reload only has to wait for the
+// requests that hold the selector when it is called - three seconds at most here; a reload that is still waiting after
+// that is being overtaken by requests that arrived after it (with clients that never pause it would never return).
+// Virtual time is discrete-event (it advances only when every thread is blocked), so the bound is exact, not a
+// wall-clock guess; all orders of simultaneous events are explored.
+func c13Load(a *vh.Args, name, fa, fb string, met *metrics.Metrics) {
+	var clients, perClient int
+	if _, err := fmt.Sscanf(strings.TrimPrefix(name, "load:"), "%dx%d", &clients, &perClient); err != nil {
+		vh.Fatal("bad scenario %q", name)
+	}
+	const hold = 3 * time.Second
+	mk := func() *vsched.Scenario {
+		os.Setenv("PHANTOM_SUBNET_LOCATION", fa)
+		sel, err := phantoms.GetPhantomSubnetSelector()
+		if err != nil {
+			vh.Fatal("selector: %v", err)
+		}
+		snd := &c13Sender{}
+		slow := &c13SlowSelector{inner: sel, every: true}
+		p := &RegProcessor{ipSelector: slow, sock: snd, metrics: met, authenticated: false, regOverrides: nil}
+		_ = p.AddTransport(pb.TransportType_Min, min.Transport{})
+		var waited time.Duration = -1
+		var reloadErr error
+		failed := ""
+		answered := 0
+		var wg vsync.WaitGroup
+		body := func() {
+			for c := 0; c < clients; c++ {
+				c := c
+				wg.Add(1)
+				vsched.GoNamed(fmt.Sprintf("client%d", c), func() {
+					defer wg.Done()
+					vsched.Sleep(time.Duration(c)*hold/time.Duration(clients) + time.Millisecond)
+					for i := 0; i < perClient; i++ {
+						resp, err := p.RegisterBidirectional(c13Wrapper("4", c*16+i), pb.RegistrationSource_BidirectionalAPI, []byte{192, 0, 2, 1})
+						if err != nil || resp == nil {
+							failed = fmt.Sprintf("client %d request %d: %v", c, i, err)
+							return
+						}
+						answered++
+					}
+				})
+			}
+			wg.Add(1)
+			vsched.GoNamed("reload", func() {
+				defer wg.Done()
+				vsched.Sleep(time.Second)
+				os.Setenv("PHANTOM_SUBNET_LOCATION", fb)
+				t0 := vsched.ClockNanos()
+				reloadErr = p.ReloadSubnets()
+				waited = time.Duration(vsched.ClockNanos() - t0)
+			})
+			wg.Wait()
+		}
+		check := func(x *vsched.Exec) *vsched.Violation {
+			if x.Verdict == vsched.VDeadlock {
+				return &vsched.Violation{Key: "deadlock", What: "registrar blocked: " + x.Detail}
+			}
+			if x.Verdict != vsched.VOK {
+				return &vsched.Violation{Key: x.Verdict, What: x.Detail}
+			}
+			if failed != "" {
+				return &vsched.Violation{Key: "request-failed", What: failed}
+			}
+			if reloadErr != nil || waited < 0 {
+				return &vsched.Violation{Key: "reload-failed", What: fmt.Sprintf("reload: err=%v returned=%v", reloadErr, waited >= 0)}
+			}
+			if waited > hold {
+				return &vsched.Violation{Key: "reload-overtaken-under-load", What: fmt.Sprintf("the reload returned %v after it was called; the requests holding the selector at that moment release it within %v; %d requests were answered in the run", waited, hold, answered)}
+			}
+			return nil
+		}
+		return &vsched.Scenario{Body: body, Check: check, Outcome: func(x *vsched.Exec) string {
+			return fmt.Sprintf("%s waited=%v answered=%d", x.Verdict, waited, answered)
+		}}
+	}
+	if a.Replay != "" {
+		rp := vh.LoadReplay(a.Replay)
+		x, v := vsched.RunOnce(vh.Ints(rp["choices"]), 0, mk)
+		for _, l := range x.Trace() {
+			fmt.Println(l)
+		}
+		o := &vh.Out{Name: name, Evaluations: 1, Exhaustive: false}
+		if v != nil {
+			o.Violations = append(o.Violations, &vh.Violation{Key: v.Key, What: v.What, Replay: map[string]any{"scenario": name, "choices": v.Choices}})
+		}
+		vh.Emit(o)
+		return
+	}
+	vh.SelfCheck(name, mk)
+	res := vsched.Explore(vsched.Config{Name: name, PreemptBound: -1, EnvBound: -1, Deadline: a.Deadline(), MaxPoints: 20000}, mk)
 	vh.Emit(vh.FromSched(res))
 }
 
